@@ -27,8 +27,8 @@ func init() {
 			p.Runs = []Run{
 				{Name: "counter-d4", Check: "C03", Params: wp{Type: "counter", Alpha: "rich"}, Depth: 4},
 				{Name: "map-d4", Check: "C03", Params: wp{Type: "map", Alpha: "rich"}, Depth: 4},
-				{Name: "list-d4", Check: "C03", Params: wp{Type: "list"}, Depth: 4},
-				{Name: "doc-d3", Check: "C03", Params: wp{Type: "doc"}, Depth: 3},
+				{Name: "list-d4", Check: "C03", Params: wp{Type: "list", Alpha: "rich"}, Depth: 4},
+				{Name: "doc-d4", Check: "C03", Params: wp{Type: "doc"}, Depth: 4},
 				{Name: "docarr-d4", Check: "C03", Params: wp{Type: "doc", Prefix: "arr4"}, Depth: 3},
 			}
 		} else {
@@ -71,9 +71,10 @@ func init() {
 				e1run("map-n2-d5", "map", 2, 5, "", o, nil, "", 0),
 				e1run("map-n3-d5", "map", 3, 5, "", o, nil, "", 0),
 				e1run("map-live-n3-d5", "map", 3, 5, "", o, nil, "live", 0),
-				e1run("list-n2-d4", "list", 2, 4, "", o, nil, "", 0),
+				e1run("list-n2-d5", "list", 2, 5, "batch", o, nil, "", 0),
 				e1run("list-live-n3-d4", "list", 3, 4, "", o, nil, "live", 0),
-				e1run("doc-n2-d4", "doc", 2, 4, "", o, nil, "", 0),
+				e1run("doc-n2-d5", "doc", 2, 5, "", o, nil, "", 0),
+				e1run("doc-live-n3-d3", "doc", 3, 3, "", o, nil, "live", 0),
 				e1run("doc-n2-d4-order01", "doc", 2, 4, "", o, []int32{0, 1}, "", 0),
 				e1run("docnest-n2-d5-order01", "doc", 2, 5, "nest", o, []int32{0, 1}, "", 0),
 				e1run("docnest-n2-d5-order10", "doc", 2, 5, "nest", o, []int32{1, 0}, "", 0),
@@ -145,7 +146,10 @@ func init() {
 			p.BudgetS = 300
 			p.Runs = []Run{
 				e1run("list-n2-d4", "list", 2, 4, "batch", o, nil, "", 0),
+				e1run("list-live-n2-d4", "list", 2, 4, "batch", o, nil, "live", 0),
+				e1run("list-live-n3-d3", "list", 3, 3, "", o, nil, "live", 0),
 				e1run("docarr-n2-d5", "doc", 2, 5, "arr", o, nil, "", 0),
+				e1run("docarr-live-n2-d4", "doc", 2, 4, "arr", o, nil, "live", 0),
 			}
 		} else {
 			p.BudgetS = 3300
@@ -600,10 +604,10 @@ func init() {
 		fresh := e2sched{E2: e2p{Clients: 2, Type: "counter", Tolerant: true}, Conc: []pact{{Op: "opensync", R: 0, T: "k1", K: "soc"}, {Op: "opensync", R: 1, T: "k1", K: "soc"}}, AtEnd: append([]string{"onedoc"}, end...)}
 		if tier == "quick" {
 			p.BudgetS = 600
-			p.Runs = []Run{schedRun("same-key-2-b2", 2, same2, 0), schedRun("different-keys-2-b1", 1, diff2, 0), schedRun("fresh-key-2-b2", 2, fresh, 0), schedRun("same-key-3-b1", 1, same3, 0)}
+			p.Runs = []Run{schedRun("same-key-2-b3", 3, same2, 0), schedRun("different-keys-2-b2", 2, diff2, 0), schedRun("fresh-key-2-b3", 3, fresh, 0), schedRun("same-key-3-b2", 2, same3, 0)}
 		} else {
 			p.BudgetS = 3400
-			p.Runs = []Run{schedRun("same-key-2-b3", 3, same2, 0), schedRun("different-keys-2-b2", 2, diff2, 0), schedRun("fresh-key-2-b3", 3, fresh, 0), schedRun("same-key-3-b2", 2, same3, 0)}
+			p.Runs = []Run{schedRun("same-key-2-b4", 4, same2, 0), schedRun("different-keys-2-b3", 3, diff2, 0), schedRun("fresh-key-2-b4", 4, fresh, 0), schedRun("same-key-3-b3", 3, same3, 0)}
 		}
 		return p
 	}
@@ -707,9 +711,9 @@ func init() {
 		if tier == "quick" {
 			p.BudgetS = 600
 			p.Runs = []Run{
-				mk("counter-2t-b3", 3, map[string]interface{}{"type": "counter", "threads": 2}),
-				mk("counter-3t-remote-pack-b2", 2, map[string]interface{}{"type": "counter", "threads": 3, "remote": true, "packer": true}),
-				mk("list-2t-remote-b2", 2, map[string]interface{}{"type": "list", "threads": 2, "remote": true}),
+				mk("counter-2t-b5", 5, map[string]interface{}{"type": "counter", "threads": 2}),
+				mk("counter-3t-remote-pack-b3", 3, map[string]interface{}{"type": "counter", "threads": 3, "remote": true, "packer": true}),
+				mk("list-3t-remote-b3", 3, map[string]interface{}{"type": "list", "threads": 3, "remote": true}),
 			}
 		} else {
 			p.BudgetS = 3400
